@@ -44,7 +44,17 @@ const c07Prelude = `(do
 
 // cancel: the caller cancels at the instant; deadline: the caller's deadline is the instant;
 // cancel-under-deadline: the caller's context has a deadline far beyond everything and is cancelled at the instant
-var c07Modes = []string{"cancel", "deadline", "cancel-under-deadline"}
+// deadline-reported-early: the context reports a deadline 20 polls earlier than it signals Done (the gap a real
+// runtime has between a deadline passing and its timer being delivered); the instant is the signal
+var c07Modes = []string{"cancel", "deadline", "cancel-under-deadline", "deadline-reported-early"}
+
+// c07earlyCtx reports another deadline than the one its Done follows.
+type c07earlyCtx struct {
+	context.Context
+	reported time.Time
+}
+
+func (c c07earlyCtx) Deadline() (time.Time, bool) { return c.reported, true }
 
 func c07Shapes(tier string) []c07shape {
 	sh := []c07shape{
@@ -233,6 +243,14 @@ func (rg *c07rig) run(sh c07shape, mode string, k int64) c07obs {
 				dctx, cancel := clk.WithDeadline(root, vclk.Epoch.Add(time.Duration(k0+k)*vclk.Tick))
 				cancels = append(cancels, cancel)
 				ctx = dctx
+			case "deadline-reported-early":
+				dctx, cancel := clk.WithDeadline(root, vclk.Epoch.Add(time.Duration(k0+k)*vclk.Tick))
+				cancels = append(cancels, cancel)
+				early := k0 + k - 20
+				if early < 0 {
+					early = 0
+				}
+				ctx = c07earlyCtx{dctx, vclk.Epoch.Add(time.Duration(early) * vclk.Tick)}
 			}
 		}
 		clk.At(k0+fuel, cancelRoot) // safety: nothing runs forever
@@ -311,7 +329,7 @@ func init() {
 		}
 		fam := &vf.Family{
 			Name:    "shapes-x-instants",
-			Bounds:  "program shapes: tail loop (with and without effects), non-tail recursion, macro self-expansion, sleeps, let/if/do/cond/or around a loop, map/apply/swap! calling a looping closure, terminating programs, future deref (under the thread scheduler), every (try P (catch e Q) (finally R)) and (try P (catch e Q)) over P,Q,R in {loop, sleep, constant, loop with effects}, nested try in body and in handler (quick: 4 inner forms x 2 outer atoms; thorough: all 80 inner forms x all 4 outer atoms); x every cancellation instant k = 1..160 (quick) / 1..500 (thorough) (k-th context poll on a virtual clock) x {cancel, deadline, cancel under a far deadline}; for terminating programs also deadlines after their completion (no try: every instant up to twice the completion time; with try: 10x and 40x)",
+			Bounds:  "program shapes: tail loop (with and without effects), non-tail recursion, macro self-expansion, sleeps, let/if/do/cond/or around a loop, map/apply/swap! calling a looping closure, terminating programs, future deref (under the thread scheduler), every (try P (catch e Q) (finally R)) and (try P (catch e Q)) over P,Q,R in {loop, sleep, constant, loop with effects}, nested try in body and in handler (quick: 4 inner forms x 2 outer atoms; thorough: all 80 inner forms x all 4 outer atoms); x every cancellation instant k = 1..160 (quick) / 1..500 (thorough) (k-th context poll on a virtual clock) x {cancel, deadline, cancel under a far deadline, deadline reported 20 polls before it is signalled}; for terminating programs also deadlines after their completion (no try: every instant up to twice the completion time; with try: 10x and 40x)",
 			Setup:   func(t string) { tier = t; rg.setup() },
 			Timeout: 30 * time.Second,
 			N:       func(t string) int64 { tier = t; return int64(len(shapesOf())) * int64(len(c07Modes)) },
